@@ -20,7 +20,11 @@ Oracles (all written from the property statement and the CSS 2.1 syntax chapter,
 * RECOVERY: texts built from a known sequence of token spellings joined by separators (white space of every kind, comments); expected types, values
   and offsets are known by construction.
 
-Known deviations are routed by SYMPTOM to known/C05.json (see `_CLASSES`): any other deviation of the same clause is still a violation.
+* COMPOSITION (domain `escape_compositions`): the value clause unit by unit - every sequence of escape units (hex escapes of the characters that mean something
+  to the syntax in every spelling, simple escapes, escaped line breaks, plain characters) as the body of every kind of token; what one unit decodes to is never
+  read again together with its neighbours (one left-to-right pass).
+
+Known deviations are routed by SYMPTOM to known/C05.json (see `forms`, `check_text`): any other deviation of the same clause is still a violation.
 """
 import itertools
 import json
@@ -50,6 +54,7 @@ K_EOF_C = 'C05-eof-position-completed-comment'
 K_ERRPOS = 'C05-combined-selector-token-position'
 K_URIBS = 'C05-uri-backslash-class'
 K_STRBT = 'C05-string-escape-backtracking'
+K_CONT = 'C05-string-continuation-joins-escape'
 
 # --------------------------------------------------------------------------------------------------------------- reference decoder
 
@@ -59,10 +64,21 @@ _WSCH = frozenset(' \t\n\r\f')
 POLICIES = ('chr', 'fffd', 'raw')   # what an escape of code point 0 or > U+10FFFF may become (CSS 2.1: undefined / may be replaced)
 
 
-def units(text, pos, end, hexdec=True, simple='decode', strnl='keep', policy='chr'):
+def _skipcont(text, j, end):
+    """offset behind the escaped line breaks (backslash + line break) that start at j"""
+    while j + 1 < end and text[j] == '\\' and text[j + 1] in _NLCH:
+        j += 3 if text[j + 1] == '\r' and j + 2 < end and text[j + 2] == '\n' else 2
+    return j
+
+
+def units(text, pos, end, hexdec=True, simple='decode', strnl='keep', policy='chr', contfirst=False, alts=None):
     """reference decoder: yields (next offset, decoded text) unit by unit for text[pos:end]
-    hexdec: decode hex escapes; simple: 'decode' (\\c -> c) | 'keep'; strnl: 'remove' (backslash + line break vanishes, strings) | 'keep'"""
+    hexdec: decode hex escapes; simple: 'decode' (\\c -> c) | 'keep'; strnl: 'remove' (backslash + line break vanishes, strings) | 'keep'
+    contfirst (NOT what CSS prescribes - the model of the recorded finding C05-string-continuation-joins-escape): the escaped line breaks are taken out in a
+    pass of their own BEFORE the hex escapes are read, so that the digits and the terminator of an escape are also found behind an escaped line break;
+    alts (contfirst only): {offset behind a unit: offset before its terminator} - the two passes only see the text of the token, which may end there"""
     i = pos
+    cf = contfirst and strnl == 'remove'
     while i < end:
         c = text[i]
         if c != '\\' or i + 1 >= end:
@@ -71,13 +87,29 @@ def units(text, pos, end, hexdec=True, simple='decode', strnl='keep', policy='ch
             continue
         d = text[i + 1]
         if d in _HEXD:
-            j = i + 1
-            while j < end and j - i - 1 < 6 and text[j] in _HEXD:
-                j += 1
-            num = int(text[i + 1:j], 16)
+            j = i + 2
+            digits = d
+            while True:
+                if cf:
+                    j = _skipcont(text, j, end)
+                if j < end and len(digits) < 6 and text[j] in _HEXD:
+                    digits += text[j]
+                    j += 1
+                else:
+                    break
+            num = int(digits, 16)
+            term = ''
             if j < end and text[j] in _WSCH:
-                j += 2 if text[j] == '\r' and j + 1 < end and text[j + 1] == '\n' else 1
-            raw = text[i:j]
+                k = j + 1
+                if text[j] == '\r':
+                    k2 = _skipcont(text, k, end) if cf else k
+                    if k2 < end and text[k2] == '\n':
+                        k = k2 + 1
+                term = '\r\n' if k > j + 1 else text[j]
+                if cf and alts is not None and text[i:j] != '\\' + digits:
+                    alts[k] = j
+                j = k
+            raw = text[i:j] if not cf else '\\' + digits + term
             if not hexdec:
                 out = raw
             elif num == 0 or num > 0x10FFFF:
@@ -110,12 +142,15 @@ def match_lengths(text, pos, value, **kw):
     n = len(value)
     if n == 0:
         out.append(0)
-    for nxt, o in units(text, pos, len(text), **kw):
+    alts = {} if kw.get('contfirst') else None
+    for nxt, o in units(text, pos, len(text), alts=alts, **kw):
         if value[j:j + len(o)] != o:
             break
         j += len(o)
         if j == n:
             out.append(nxt - pos)
+            if alts and nxt in alts:
+                out.append(alts[nxt] - pos)
             # a following unit that decodes to '' (escaped line break in a string) may still belong to the span
         elif j > n:
             break
@@ -140,7 +175,8 @@ def forms(kind):
     if kind in ATFAMILY:
         return [((), dict(_D_FULL, strnl='keep')), ((K_SIMPLE,), dict(_D_KEEP, strnl='keep')), ((K_ATRAW,), dict(_D_RAW, strnl='keep'))]
     if kind in ('STRING', 'INVALID'):
-        return [((), dict(_D_FULL, strnl='remove')), ((K_SIMPLE,), dict(_D_KEEP, strnl='remove'))]
+        return [((), dict(_D_FULL, strnl='remove')), ((K_SIMPLE,), dict(_D_KEEP, strnl='remove')),
+                ((K_CONT,), dict(_D_FULL, strnl='remove', contfirst=True)), ((K_SIMPLE, K_CONT), dict(_D_KEEP, strnl='remove', contfirst=True))]
     if kind == 'URI':
         return [((), dict(_D_FULL, strnl='remove')), ((K_SIMPLE,), dict(_D_KEEP, strnl='remove')), ((K_URINL,), dict(_D_FULL, strnl='keep')),
                 ((K_SIMPLE, K_URINL), dict(_D_KEEP, strnl='keep'))]
@@ -150,6 +186,11 @@ def forms(kind):
 
 
 CLOSERS = {'STRING': ('"', "'"), 'COMMENT': ('*/',), 'URI': (')', '")', "')")}
+
+
+# only an escape of code point 0 or of six digits (possibly > U+10FFFF) makes the admitted policies differ; an escaped line break may join digits in the model of
+# C05-string-continuation-joins-escape; without any of these in the rest of a short text one policy is enough
+_ODD = re.compile(r'\\0|\\[0-9a-fA-F]{6}|\\[\n\r\f]')
 
 
 def candidates(text, pos, kind, value, last_in_fullsheet):
@@ -163,10 +204,11 @@ def candidates(text, pos, kind, value, last_in_fullsheet):
         seen.add((n, ''))
         if not (last_in_fullsheet and kind in CLOSERS):
             return out
+    pols = POLICIES if len(text) - pos > 200 or _ODD.search(text, pos) else POLICIES[:1]
     for known, opts in forms(kind):
         if (n, '') in seen and not known:
             continue
-        for policy in POLICIES:
+        for policy in pols:
             for L in match_lengths(text, pos, value, policy=policy, **opts):
                 if L > 0 and (L, '') not in seen:
                     seen.add((L, ''))
@@ -179,7 +221,7 @@ def candidates(text, pos, kind, value, last_in_fullsheet):
             if kind == 'STRING' and rest[:1] != closer:
                 continue
             for known, opts in forms(kind):
-                for policy in POLICIES:
+                for policy in pols:
                     if decode(rest + closer, policy=policy, **opts) == value and (len(rest), closer) not in seen:
                         seen.add((len(rest), closer))
                         out.append((len(rest), closer, known))
@@ -972,6 +1014,183 @@ def token_sequences(ctx):
             [{'sequence': ['x\\41', ' ', '@import', '/**/', 'url(x']}], t0, False)
 
 
+# ------------------------------------------------------------------------------ domain 3b: escapes composed at every position of a token
+# The value clause "its span with CSS escapes decoded as the syntax prescribes" read unit by unit: the body of a token is a SEQUENCE of units - plain characters,
+# simple escapes, escaped line breaks, hex escapes of the characters that mean something to the syntax (backslash, quotes, line breaks, blank, tab, parentheses,
+# '*', '/', hex digits and letters, '@', '#', '-', ';', code point 0, surrogate, beyond U+10FFFF) in every spelling (1-6 digits, upper case, each terminator) - and
+# every sequence of units is put into every kind of token that decodes escapes.  What one unit decodes to must never be read again together with its neighbours.
+
+ESC_CPS = [0x5c, 0x22, 0x27, 0xa, 0xd, 0x20, 0x29, 0x2a, 0x41, 0x35, 0x0, 0x110000,
+           # thorough tier only
+           0x2f, 0xc, 0x9, 0x28, 0x61, 0x67, 0x40, 0x23, 0x2d, 0x3b, 0xe9, 0xd800, 0x10ffff]
+ESC_TERMS = ['', ' ', '\n', '\r\n', '\t', '\f', '\r']
+ESC_SIMPLE = ['\\\\', '\\"', "\\'", '\\g', '\\)', '\\*', '\\ ', '\\-', '\\(', '\\/', '\\;', '\\\xe9']
+ESC_CONT = ['\\\n', '\\\r\n', '\\\r', '\\\f']
+ESC_PLAIN = ['a', 'g', '5', 'c', ' ', '\n', '(', ')', '*', '"', "'", '-', '/', '\t', ';', '\xe9']
+QUICK_N = {'cps': 12, 'terms': 3, 'simple': 8, 'plain': 12}
+# the units of the triples: an escaped backslash / quote / line break / letter with and without terminator, a digit, a hex letter, a blank, a line continuation
+ESC_CORE = ['\\5c', '\\5c ', '\\a ', '\\a', '\\\n', '\\\\', '\\"', 'a', '5', ' ', '\\41', '\\41 ', '\\22 ', '\\g']
+ESC_CORE_THOROUGH = ['\\\r\n', '\\d', 'g', '\\0 ', '\\27', '\\c ', '\\29 ', '\\2a', '\\2f', '\\\f', '\\000041', '\t', '\\)', '"']
+
+# (label, token kind, text before the body, text behind it, what follows the token, tokens of what follows).  The expected token list - one token of that kind
+# with the decoded text as value, then the follower - holds if the reference recogniser accepts prefix + body + suffix as ONE token of the kind (otherwise the
+# text is still checked against the universal clauses: tiling with decoded values, positions, grammar, completion).
+ESC_CONTAINERS = [
+    ('string2', 'STRING', '"', '"', ';z', [('CHAR', ';'), ('IDENT', 'z')]),
+    ('string1', 'STRING', "'", "'", ';z', [('CHAR', ';'), ('IDENT', 'z')]),
+    ('string at the end', 'STRING', '"', '"', '', []),
+    ('ident', 'IDENT', 'x', '', ';z', [('CHAR', ';'), ('IDENT', 'z')]),
+    ('ident from its first character', 'IDENT', '', '', ';z', [('CHAR', ';'), ('IDENT', 'z')]),
+    ('hash', 'HASH', '#', '', ';z', [('CHAR', ';'), ('IDENT', 'z')]),
+    ('function', 'FUNCTION', 'x', '(', ';z', [('CHAR', ';'), ('IDENT', 'z')]),
+    ('dimension', 'DIMENSION', '1', '', ';z', [('CHAR', ';'), ('IDENT', 'z')]),
+    ('at-keyword', 'ATKEYWORD', '@', '', ';z', [('CHAR', ';'), ('IDENT', 'z')]),
+    ('uri', 'URI', 'url(', ')', ';z', [('CHAR', ';'), ('IDENT', 'z')]),
+    ('uri string2', 'URI', 'url("', '")', ';z', [('CHAR', ';'), ('IDENT', 'z')]),
+    ('comment', 'COMMENT', '/*', '*/', ';z', [('CHAR', ';'), ('IDENT', 'z')]),
+    ('invalid', 'INVALID', '"', '', '\nz', [('S', '\n'), ('IDENT', 'z')]),
+    # not terminated: completed at the end of input in full-sheet mode (universal clauses only)
+    ('open string', None, '"', '', '', []),
+    ('open uri', None, 'url(', '', '', []),
+    ('open comment', None, '/*', '', '', []),
+    # thorough tier only
+    ("uri string1", 'URI', "url( '", "' )", ';z', [('CHAR', ';'), ('IDENT', 'z')]),
+    ('open uri string', None, 'url("', '', '', []),
+]
+QUICK_CONTAINERS = 16
+QUAD_CONTAINERS = ('string2', 'ident', 'uri', 'uri string2', 'invalid', 'open string')
+
+
+def esc_units(tier):
+    th = tier == 'thorough'
+    cps = ESC_CPS if th else ESC_CPS[:QUICK_N['cps']]
+    terms = ESC_TERMS if th else ESC_TERMS[:QUICK_N['terms']]
+    U = []
+    for cp in cps:
+        low = '%x' % cp
+        for t in terms:
+            U.append('\\' + low + t)
+        if len(low) < 6:
+            U.append('\\' + low.rjust(6, '0'))          # six digits: no terminator needed
+            if th:
+                U.append('\\' + low.rjust(6, '0') + ' ')     # ... but one is still swallowed
+        if low.upper() != low:
+            U.append('\\' + low.upper() + ' ')
+            if th:
+                U.append('\\' + low.upper())
+        if th and len(low) < 5:
+            U.append('\\0' + low + ' ')
+    U += (ESC_SIMPLE if th else ESC_SIMPLE[:QUICK_N['simple']]) + ESC_CONT + (ESC_PLAIN if th else ESC_PLAIN[:QUICK_N['plain']])
+    out = []
+    for u in U:
+        if u not in out:
+            out.append(u)
+    return out
+
+
+def esc_core(tier):
+    return ESC_CORE + ESC_CORE_THOROUGH if tier == 'thorough' else ESC_CORE
+
+
+def esc_case(ci, body):
+    """-> (text, expected or None)"""
+    label, kind, pre, suf, follow, ftoks = ESC_CONTAINERS[ci]
+    tok = pre + body + suf
+    text = tok + follow
+    if kind is None or not body:
+        return text, None
+    if not REFC[kind].fullmatch(tok):
+        return text, None
+    if kind == 'INVALID':
+        m = REFC['INVALID'].match(text)
+        if m.end() != len(tok) or REFC['STRING'].match(text):
+            return text, None     # the line break belongs to the last escape (its terminator)
+    elif kind in MAXIMAL or kind == 'FUNCTION':
+        if REFC[kind].match(text).end() != len(tok):
+            return text, None
+    if kind == 'IDENT' and decode(tok).lower() == 'and':
+        return text, None
+    if kind == 'FUNCTION' and (REFC['URI'].match(text) or decode(tok).lower() in ('and(', 'url(')):
+        return text, None
+    value = decode(tok, **forms(kind)[0][1])
+    exp = [(kind, value, 0)]
+    off = len(tok)
+    for tk, tv in ftoks:
+        exp.append((tk, tv, off))
+        off += len(tv)
+    return text, {False: exp, True: exp}
+
+
+def _esc_cases(tier, ci, firsts):
+    U = esc_units(tier)
+    core = esc_core(tier)
+    for a in firsts:
+        yield (a,)
+        for b in U:
+            yield (a, b)
+        if a in core:
+            for b in core:
+                for c in core:
+                    yield (a, b, c)
+        if tier == 'thorough' and a in ESC_CORE and ESC_CONTAINERS[ci][0] in QUAD_CONTAINERS:
+            for b in ESC_CORE:
+                for c in ESC_CORE:
+                    for d in ESC_CORE:
+                        yield (a, b, c, d)
+
+
+def _esc_worker(args):
+    tier, ci, firsts, limit = args
+    acc = _Acc()
+    signal.signal(signal.SIGALRM, _alarm)
+    signal.alarm(limit)
+    text = ''
+    seen = set()
+    try:
+        for seq in _esc_cases(tier, ci, firsts):
+            text, exp = esc_case(ci, ''.join(seq))
+            if text in seen:
+                continue
+            seen.add(text)
+            acc.n += 1
+            if exp is not None:
+                acc.kinds.add(ci)
+            f = check_text(text, expected=exp)
+            if f:
+                acc.add(text, f, {'container': ESC_CONTAINERS[ci][0], 'units': list(seq), 'one_token_expected': exp is not None})
+    except _Timeout:
+        acc.add(text, [(CL_TERM, None, 'no result within the time limit of the task (%d s)' % limit)])
+    finally:
+        signal.alarm(0)
+    r = acc.result()
+    return r
+
+
+def escape_compositions(ctx):
+    """every sequence of <= 2 escape units (<= 3 over the core units; thorough: 4 over the quick core) as the body of every kind of token that decodes escapes"""
+    t0 = time.time()
+    U = esc_units(ctx.tier)
+    assert all(u in U for u in esc_core(ctx.tier)), 'core units must be units'
+    limit = 1500 if ctx.tier == 'thorough' else 300
+    step = 6 if ctx.tier == 'thorough' else 12
+    ncont = len(ESC_CONTAINERS) if ctx.tier == 'thorough' else QUICK_CONTAINERS
+    tasks = [(ctx.tier, ci, U[i:i + step], limit) for ci in range(ncont) for i in range(0, len(U), step)]
+    results = _pool_map(ctx, _esc_worker, tasks)
+    n = sum(r['n'] for r in results)
+    ncore = len(esc_core(ctx.tier))
+    th = ctx.tier == 'thorough'
+    _report(ctx, results, 'escape compositions',
+            'prefix + body + suffix (+ follower) where the body is a sequence of escape units: hex escapes of the characters that mean something to the syntax in every spelling, simple '
+            'escapes, escaped line breaks, plain characters; in every kind of token that decodes escapes, closed, cut by a line break and not terminated; both modes: the universal '
+            'clauses (tiling with the value == span decoded unit by unit, left to right, by the reference decoder; positions also of the follower; grammar; completion) and, where '
+            'the reference recogniser accepts the text as one token, exactly that token with the decoded value; distinct = texts',
+            '%d units (%d code points x {1-6 digits, upper case, terminators %r}, %d simple escapes, %d escaped line breaks, %d plain characters) x %d containers: all sequences of <= 2 '
+            'units, all sequences of 3%s over %d core units'
+            % (len(U), len(ESC_CPS) if th else QUICK_N['cps'], ESC_TERMS if th else ESC_TERMS[:QUICK_N['terms']], len(ESC_SIMPLE) if th else QUICK_N['simple'], len(ESC_CONT),
+               len(ESC_PLAIN) if th else QUICK_N['plain'], ncont, ' (and of 4 over the %d quick core units in the containers %s)' % (len(ESC_CORE), ', '.join(QUAD_CONTAINERS)) if th else '', ncore),
+            [{'container': 'string2', 'units': ['\\5c', '\\a '], 'text': '"\\5c\\a ";z'}, {'container': 'ident', 'units': ['\\41', '\\\n', ' ']}], t0, True, distinct=n)
+
+
 # ------------------------------------------------------------------------------------------- domain 4: positions in error reports
 
 _SUFFIX = re.compile(r' \[(\d+):(\d+): (.*)\]\Z', re.S)
@@ -1072,6 +1291,7 @@ WITNESSES = [
     (K_ATRAW, '@\\69mport', lambda f: any(k == K_ATRAW for _, k, _ in f)),
     (K_COMMENT, '/*\\41*/', lambda f: any(k == K_COMMENT for _, k, _ in f)),
     (K_URINL, 'url("a\\\nb")', lambda f: any(k == K_URINL for _, k, _ in f)),
+    (K_CONT, '"\\41\\\n b"', lambda f: any(k == K_CONT for _, k, _ in f)),
     (K_BOM, '\xfe\xffa b', lambda f: any(k == K_BOM for _, k, _ in f)),
     (K_EOF_SU, '"abc', lambda f: any(k == K_EOF_SU for _, k, _ in f)),
     (K_EOF_C, '/*x\ny', lambda f: any(k == K_EOF_C for _, k, _ in f)),
